@@ -126,7 +126,10 @@ def run(cs, tier, run_index):
     except Exception as e:
         res.violate("C08.val.same_as_game", why="constructor raised on a valid XOR game", exc=type(e).__name__, msg=str(e)[:200], **meta)
         return res
-    shadow = [prob.copy(), pred.copy()]
+    # the object is compared with its own state right after construction (a constructor may legitimately copy or
+    # cast what it is given); the caller's arrays are compared with copies taken before construction
+    shadow = [np.array(game.prob_mat, copy=True), np.array(game.pred_mat, copy=True)]
+    caller_shadow = [prob.copy(), pred.copy()]
     interloper = None
     if cfg.draw(3) == 2 or run_index % 8 == 7:
         p2, f2, _, _ = draw_game(cs.s("game:2"), like=meta)
@@ -187,7 +190,7 @@ def run(cs, tier, run_index):
         out = call_value(op_fn(game, nm), res, nm)
         res.log.add("op", k, nm, out[1] if out[0] == "ok" else out[:2])
         res.checks_sim += 1
-        if not (_same(game.prob_mat, shadow[0]) and _same(game.pred_mat, shadow[1]) and _same(caller[0], shadow[0]) and _same(caller[1], shadow[1]) and game.reps == reps):
+        if not (_same(game.prob_mat, shadow[0]) and _same(game.pred_mat, shadow[1]) and _same(caller[0], caller_shadow[0]) and _same(caller[1], caller_shadow[1]) and game.reps == reps):
             res.violate("C08.hist.order", why="XOR game object or caller arrays changed", after=nm, position=k, history=names[:k + 1], **meta)
             break
         if out[0] != "ok":
